@@ -229,7 +229,7 @@ func c12Stream(o *out, r *rng, thorough bool) {
 			close(startGate)
 			wg.Wait()
 			if storm {
-				o.count(fmt.Sprintf("interleaved-opens:%d", betweenCalls.Load()/1000*1000))
+				o.count(fmt.Sprintf("interleaved-opens:%d", betweenCalls.Load()/100*100))
 			}
 			for i := 0; i < nc; i++ {
 				o.count(fmt.Sprintf("clients:%d", nc))
